@@ -81,7 +81,7 @@ class C02(Check):
             'non-trivial = the map was applied to a moved copy (not the identity motion) and every mapped atom compared')
     technique = ('exhaustive enumeration of references x targets x scales x 27 rotations x 3 translations on the real '
                  'ExchangeMap; differential oracle map(R ref + t) vs R map(ref) + t; owned np.random for small references')
-    level_text = ('every labelled graph with an anchor on 3..4 (quick) / 3..5 (thorough) atoms in 9 geometry classes (incl. a chain bent by 1e-5 rad: nearly straight but fully determined), '
+    level_text = ('every labelled graph with an anchor on 3..4 (quick) / 3..5 (thorough) atoms in 9 geometry classes (incl. a chain bent by 1e-5 rad: nearly straight but fully determined; and a generic one with a neighbour resting exactly on its anchor), '
                   '1- and 2-atom references along 7 axis classes with all 9 combinations of a 3-entry draw menu at '
                   'construction and at call, 3 targets, 2 scale factors, the whole cube rotation group plus 3 generic '
                   'rotations, 3 translations (up to 135 nm), all executed on the real code; the 24 cube rotations are applied '
@@ -100,13 +100,13 @@ class C02(Check):
     def units(self, tier, seed):
         nmax = 5 if tier == 'thorough' else 4
         self.bounds = {'ref_atoms': [1, nmax], 'graphs': {n: len(xm.ref_graphs(n)) for n in range(3, nmax + 1)},
-                       'geometry_classes': list(xm.GEO) + list(xm.BENT) + list(xm.NEAR), 'two_atom_axis_classes': list(AX2),
+                       'geometry_classes': list(xm.GEO) + list(xm.BENT) + list(xm.NEAR) + ['collapse'], 'two_atom_axis_classes': list(AX2),
                        'targets': [list(t) for t in TARGETS], 'scale_factors': list(SCALES),
                        'rotations': 27, 'translations': 3,
                        'full_cube_group_on': {'n<=4': list(QUICK_CUBE) if tier != 'thorough' else list(xm.GEO), 'n=5': list(QUICK_CUBE)}, 'draw_menu': [3, 3], 'tolerance_nm': TOL}
         u = []
         for n in range(3, nmax + 1):
-            for geo in list(xm.GEO) + list(xm.BENT) + list(xm.NEAR):
+            for geo in list(xm.GEO) + list(xm.BENT) + list(xm.NEAR) + ['collapse']:
                 full = (tier == 'thorough' and n <= 4) or geo in QUICK_CUBE
                 mod = {3: 1, 4: 18 if full else 3, 5: 96 if full else 16}[n]
                 u += [{'k': 'g', 'n': n, 'geo': geo, 'mod': mod, 'r': r} for r in range(mod)]
@@ -232,7 +232,14 @@ class C02(Check):
         n, edges, geo, m, place, s = (case[x] for x in ('n', 'edges', 'geo', 'm', 'place', 's'))
         anch = xm.anchors(n, edges)
         fn = xm.frame_neighbours(n, edges)
-        rpos = xm.ref_positions(geo, n, seed)
+        if geo == 'collapse':
+            # generic, except that one anchor's lowest-numbered neighbour rests exactly ON it: the three frame points
+            # are (trivially) collinear, the axis anchor -> second neighbour is all the reference determines
+            rpos = xm.collapse_first_neighbour(xm.ref_positions('generic', n, seed), fn)
+            if rpos is None:
+                return
+        else:
+            rpos = xm.ref_positions(geo, n, seed)
         tpos = xm.target_positions(rpos, anch, m, place, seed)
         assign, _, _ = xm.ref_map(rpos, anch, tpos, s)
         # anchors within ~1e-9 of collinear (classes NEAR) leave the axis undetermined in practice: like the exactly
